@@ -5,6 +5,7 @@ import Driver.Codec
 import Driver.Timer
 import Driver.Http
 import Driver.RtOracle
+import Driver.Conc
 import Driver.Mw
 
 partial def loop (h : IO.FS.Stream) (out : IO.FS.Stream) (f : String → String) : IO Unit := do
@@ -25,6 +26,8 @@ def dispatchNamed : List String → Option (String → String)
   | ["model", "timer"] => some Driver.Timer.model
   | ["oracle", "timer"] => some Driver.Timer.oracle
   | ["model", "rt"] => some Driver.Rt.model
+  | ["model", "conc"] => some Driver.Conc.model
+  | ["oracle", "conc"] => some Driver.Conc.oracle
   | ["model", "mw"] => some Driver.Mw.model
   | ["oracle", "mw"] => some Driver.Mw.oracle
   | ["model", "mw-fixed"] => some (Driver.Mw.modelWith true)
